@@ -11,8 +11,8 @@ TRUSTED_BASE = [
     "exact mode: the model runs the recursions in exact Gaussian rationals on the doubles the implementation receives; "
     "agreement required to rtol 1e-7 (conditioning predicate: every stage error P_j >= 1e-6 r0)",
 ]
-PARTIAL = ["'a stable polynomial' (all roots strictly inside the unit circle) is the Schur-Cohn theorem: proved in "
-           "Lean only for order 1 (|a_1| = |k_1| < 1); higher orders are evaluated by the oracle (numpy.roots)"]
+PARTIAL = ["CHOLESKY: LAPACK glue, residual oracle only (stability of the prediction polynomial is proved for every order: "
+           "C10.levinson_stable, Schur-Cohn by the elementary |A| >= |B| invariant)"]
 ASSUMPTIONS = ["positive-definite sequences are biased autocorrelations of random data; 'clearly indefinite' ones have a "
                "stage error <= -1e-3 r0"]
 RULE = ("PD sequences = biased autocorrelation of random dyadic data (real/complex), length 2..40, all orders; "
